@@ -17,11 +17,18 @@ func Desc(v ssa.Value, depth int) string {
 	return descSeen(v, depth, map[ssa.Value]bool{})
 }
 
+var descHard int
+
 func descSeen(v ssa.Value, depth int, seen map[ssa.Value]bool) string {
 	if v == nil {
 		return "nil"
 	}
 	if depth <= 0 {
+		return "…"
+	}
+	descHard++
+	defer func() { descHard-- }()
+	if descHard > 60 {
 		return "…"
 	}
 	switch x := v.(type) {
